@@ -1,5 +1,5 @@
 """property id -> check function(prop, tier, replay) -> exit code"""
-from . import router, reg, selector, framing, rpc, transcode, registry_chk
+from . import router, reg, selector, framing, rpc, transcode, registry_chk, mount
 
 CHECKS = {
     "C01": router.run,
@@ -17,4 +17,5 @@ CHECKS = {
     "C16": reg.run,
     "C17": framing.run,
     "C19": selector.run,
+    "C20": mount.run,
 }
